@@ -4,9 +4,11 @@ import (
 	"bytes"
 	"context"
 	"fmt"
+	"math/bits"
 	"slices"
 	"strings"
 
+	"go.sia.tech/core/blake2b"
 	rhp2 "go.sia.tech/core/rhp/v2"
 	proto4 "go.sia.tech/core/rhp/v4"
 	"go.sia.tech/core/types"
@@ -354,6 +356,45 @@ func (e *env) foreignTransportMuts(msg int, sig func(out []rhpc.Msg) *types.Sign
 	}
 }
 
+// appendProofForTreeSize cuts the real tree over roots into popcount(size) pieces along its right
+// spine, so that an accumulator told it holds `size` leaves reproduces the real root from them,
+// and returns those pieces (lowest tree first, as VerifyAppendSectorsProof reads them) with the
+// root that accumulator reaches after appending app.
+func appendProofForTreeSize(roots, app []types.Hash256, size uint64) ([]types.Hash256, types.Hash256, bool) {
+	k := bits.OnesCount64(size)
+	if k == 0 || k > len(roots) {
+		return nil, types.Hash256{}, false
+	}
+	lo, hi := 0, len(roots)
+	var pieces []types.Hash256 // highest tree first
+	for s := 1; s < k; s++ {
+		n := hi - lo
+		if n < 2 {
+			return nil, types.Hash256{}, false
+		}
+		p := 1 << (bits.Len(uint(n-1)) - 1) // largest power of two below n
+		pieces = append(pieces, proto4.MetaRoot(roots[lo:lo+p]))
+		lo += p
+	}
+	pieces = append(pieces, proto4.MetaRoot(roots[lo:hi]))
+	slices.Reverse(pieces) // lowest tree first
+	acc := blake2b.Accumulator{NumLeaves: size}
+	j := 0
+	for i := 0; i < 64; i++ {
+		if size&(1<<i) != 0 {
+			acc.Trees[i] = pieces[j]
+			j++
+		}
+	}
+	if types.Hash256(acc.Root()) != proto4.MetaRoot(roots) {
+		return nil, types.Hash256{}, false
+	}
+	for _, h := range app {
+		acc.AddLeaf(h)
+	}
+	return pieces, types.Hash256(acc.Root()), true
+}
+
 func normalizeDesc(idx []uint64) []uint64 {
 	out := slices.Clone(idx)
 	slices.Sort(out)
@@ -533,6 +574,16 @@ func (e *env) appendScenario(roots []types.Hash256) *scenario {
 			resp(out).SubtreeRoots, resp(out).NewMerkleRoot = proto4.BuildAppendProof(base, honestApp)
 		}},
 	)
+	// the contract has shrunk before (Capacity > Filesize): the host lays the subtree roots out
+	// for a tree of Capacity/SectorSize leaves; they still reproduce the old root, but the
+	// appended sectors are merged elsewhere
+	if capSectors := pre.Revision.Capacity / proto4.SectorSize; capSectors > uint64(len(preRoots)) {
+		if sub, newRoot, ok := appendProofForTreeSize(preRoots, honestApp, capSectors); ok {
+			sc.muts = append(sc.muts, mutation{1, "response", "valid-for-capacity-sized-tree", func(out []rhpc.Msg) {
+				resp(out).SubtreeRoots, resp(out).NewMerkleRoot = slices.Clone(sub), newRoot
+			}})
+		}
+	}
 	sc.muts = append(sc.muts, msgMuts(1, sc.steps)...)
 	sig := func(out []rhpc.Msg) *types.Signature {
 		return &out[3].Obj.(*proto4.RPCAppendSectorsThirdResponse).HostSignature
